@@ -186,6 +186,8 @@ func main() {
 		c17(*seed, *n, *replay)
 	case "c10":
 		c10(*seed, *n, *replay)
+	case "c13":
+		c13(*seed, *n, *replay)
 	default:
 		fmt.Fprintln(os.Stderr, "usage: recvharness [-seed N] [-n N] [-replay file] c12|c09|c10|c13|c17|c20")
 		os.Exit(2)
